@@ -96,3 +96,44 @@ prop('C19',
                  "predicates; exhaustive only for the enumerated sub-domains."),
      technique="bounded-exhaustive law checking + property-based testing of algebraic laws (rapidcheck, libFuzzer) against reference predicates",
      design_ref="DESIGN.md section 3, C19")
+
+prop('C15',
+     quick=dict(sweep=True, pbt=(6000, 12000, 10), fuzz=(12000, 8000, 4)),
+     thorough=dict(sweep=True, pbt=(160000, 30000, 12), fuzz=(400000, 16000, 4), stage_timeout=3000),
+     floor=dict(quick=60000, thorough=1000000), alloc_cap_mb=64,
+     rule=("Sweep: every update sequence up to depth d on trees of n=2..6 symbols (quick d=10,8,7,6,5; thorough d=14,10,9,8,7), each prefix checked; initial trees "
+           "for every n=2..330 with out-of-range symbols/nodes refused without change; runs of exactly 65535-n updates (round-robin, single-symbol, pseudo-random) on "
+           "n=2,3,314 (thorough also 4,5,17,100,313), then three further updates that must be refused leaving shape and all bit strings unchanged. pbt/fuzz: n from "
+           "{2..8,16,31..33,64,100,255,256,313,314, random 2..314}, 1..5000 updates (thorough 20000) drawn uniform / skewed / single-symbol / round-robin / sawtooth / "
+           "seeded-PRNG, checked every len/48 updates and at the end. Oracle at each check: simultaneous walk of the library tree (GetRootNodeIndex/GetChildNode/IsLeaf/"
+           "GetNodeData) and an independent freq/prnt/son sibling-property implementation: same shape, 2n-1 reachable nodes, every symbol on exactly one leaf; "
+           "GetEncodedBitString length == leaf depth and the bits drive the walk to the symbol in one bit order for the whole tree. Non-trivial = a history in which "
+           "the shape differs from the previous check (a swap moved a leaf), or a capacity-crossing run; distinct = hash of (n, symbol sequence)."),
+     sweep_what="all update sequences to the stated depth on 2..6 symbols; all initial sizes 2..330; capacity-crossing runs",
+     assumptions=["capacity = root count may not exceed 65535, i.e. 65535-n updates (65221 for the 314-symbol tree)", "either LSB-first or MSB-first bit order is accepted for the encoder, but one order for the whole tree"],
+     title="Adaptive Huffman tree stays a valid code equal to the reference on every history",
+     level_text=("Bounded-exhaustive histories on small trees plus generated long histories on trees up to 314 symbols, differential against an independent reference "
+                 "implementation and structural validity predicates; capacity boundary exercised exactly."),
+     technique="differential property-based testing against a reference implementation (rapidcheck + libFuzzer), bounded-exhaustive history enumeration",
+     design_ref="DESIGN.md section 3, C15")
+
+prop('C04',
+     quick=dict(sweep=True, pbt=(8000, 1500, 10), fuzz=(30000, 1500, 5)),
+     thorough=dict(sweep=True, pbt=(1200000, 8000, 11), fuzz=(6000000, 6000, 5), stage_timeout=3400),
+     floor=dict(quick=20000, thorough=1000000), alloc_cap_mb=64,
+     rule=("Inputs from three families chosen by the tape: random bytes (0..4096; thorough ..20000), constant/periodic bytes (cheap way past the 65221-update capacity), "
+           "and streams produced by an independent token-level encoder from literal/match token lists (every match length 3..60, distances from each of the six "
+           "position-code length classes incl. 1, 4096 and matches overlapping the write cursor or reaching into the space-filled window). Each input is decoded by an "
+           "independent reference decoder (4 KiB space-filled window, 314-symbol adaptive Huffman, bits past the end read as 0, stop test after each code, error at "
+           "the 65222nd update) and by the library twice: through GetInternalBuffer until it reports 0 and through GetData with a cyclic schedule of sizes from "
+           "{1,2,3,61,62,63,4033,4034,4035,4095,4096,4097,10000,random}; one case in six also extracts the stream as an LZH member of a reference-encoded VOL. "
+           "Oracle: outputs equal the reference; beyond capacity the library must throw and what it delivered must be a prefix of the reference output; termination "
+           "by output limit + watchdog. Sweep: 58 lengths x 14 boundary distances; a 2600-token window-wrapping stream under every drain size; every prefix of an "
+           "encoded stream; four capacity-crossing inputs and the exact capacity edge. Non-trivial = output > 4096 bytes (window wrap) or >= 1 match; distinct = hash of input."),
+     sweep_what="58 match lengths x 14 distances; all 13 drain sizes + mixed + internal + VOL path on a wrapping stream; all prefixes of one stream; capacity-crossing inputs",
+     assumptions=["mixing both drain interfaces within one decoder session is not asserted", "for the empty input either the reference output or no output is accepted"],
+     title="LZH decompression equals the reference decoder, however it is drained",
+     level_text=("Differential testing against an independent decoder and encoder over generated byte strings and token streams, both drain interfaces, under ASan/UBSan; "
+                 "exploration with directed boundary sweeps."),
+     technique="differential property-based testing / fuzzing against an independent reference decoder+encoder (rapidcheck, libFuzzer), ASan/UBSan",
+     design_ref="DESIGN.md section 3, C04")
